@@ -162,6 +162,25 @@ def identify_quadratic(vals, D):
     return Lam, nu, c, resid
 
 
+def identification_noise(vals, Lam, nu):
+    """Rounding noise of ln_integral(identify_quadratic(vals)): the probed values carry ~eps*max|vals| each, and the
+    completion of the square amplifies an error dL in Lam to mu' dL mu with mu = Lam^-1 nu."""
+    m = np.linalg.solve(Lam, nu)
+    return 4e-16 * float(np.max(np.abs(vals))) * (1.0 + float(np.sum(np.abs(m)))) ** 2
+
+
+def ln_integral_recentred(f_row, D, Lam, nu):
+    """Second stage of the black-box mass oracle: re-probe the function on the lattice moved to the estimated mode
+    m = Lam^-1 nu and scaled by the conditional standard deviations, where the probed values are O(ln of the mass)
+    and completing the square is benign.  f_row(points[P,D]) -> ln f at the points (1-D).  Returns (ln integral, resid)."""
+    m = np.linalg.solve(Lam, nu)
+    s = 1.0 / np.sqrt(np.diag(Lam))
+    pts, _ = lattice(D)
+    vals = np.asarray(f_row(m[None, :] + pts * s[None, :]), float)
+    L2, n2, c2, resid = identify_quadratic(vals, D)
+    return ln_integral(L2, n2, c2) + float(np.sum(np.log(s))), resid
+
+
 # --------------------------------------------------------------------------
 # Gaussian moments (Isserlis / Wick)
 # --------------------------------------------------------------------------
